@@ -196,8 +196,8 @@ def search(pid, ob, repo, scratch):
     if ob.get('unit') == 'eval_ctx' or fn.startswith('eval_') or fn.startswith('model::Context::') or (pid == 'C06' and fn.startswith('xpath::func::')):
         # evaluator skeleton: the witness is a whole query through xml_xpath::query on a real parsed document
         ops = {'C19': ['xpath.query.ctx_reuse'], 'C07': ['xpath.query.order'], 'C06': ['xpath.query.no_panic'], 'C05': ['xpath.query.node_test']}.get(pid, [])
-        if pid == 'C05' and fn.startswith('eval_predicate'):
-            ops = ['xpath.query.predicates']
+        if pid == 'C05' and (fn.startswith('eval_predicate') or fn.startswith('eval_axis_node_test') or fn.startswith('eval_filter_expr')):
+            ops = ['xpath.query.predicates', 'xpath.query.axes', 'xpath.query.node_test']
     if not ops:
         return None
     exe = build(repo, scratch)
